@@ -384,6 +384,13 @@ def check_case(case, col=None, logs=None):
                         result2['ok'] = True
                     except BaseException as e:      # noqa
                         result2['exc'] = e
+                # the user changes the terminal's settings between the sessions (echo on, another interrupt key): the
+                # second session has to give back what *it* found
+                attr2 = termios.tcgetattr(us)
+                attr2[3] |= termios.ECHO
+                attr2[6][termios.VINTR] = b'\x07'
+                termios.tcsetattr(us, termios.TCSANOW, attr2)
+                mode_before = termios.tcgetattr(us)
                 try:
                     termios.tcflush(us, termios.TCIFLUSH)       # keystrokes of the first session that were typed after its escape
                 except termios.error:
